@@ -294,9 +294,9 @@ func runC01(c *Ctx) {
 				var pk []dpkg
 				for _, f := range fids {
 					if r.Bool() {
-						pk = append(pk, dpkg{cmd: agent.COMMAND_FS, req: req, body: body(fI(2), fI(0), fI(f), fQ(uint64(r.Intn(1000))), fW(genName(r)))})
+						pk = append(pk, dpkg{cmd: agent.COMMAND_FS, req: req, body: body(fI(2), fI(0), fI(f), fQ(gen.Pick(r, []uint64{0, 0, 1, uint64(r.Intn(1000)), 0x7fffffff, 0xffffffff, 1 << 40})), fW(genName(r)))})
 					} else {
-						pk = append(pk, dpkg{cmd: agent.BEACON_OUTPUT, req: req, body: body(fI(agent.CALLBACK_FILE), fY(append(append(be32b(f), be32b(uint32(r.Intn(900)))...), []byte(genName(r))...)))})
+						pk = append(pk, dpkg{cmd: agent.BEACON_OUTPUT, req: req, body: body(fI(agent.CALLBACK_FILE), fY(append(append(be32b(f), be32b(gen.Pick(r, []uint32{0, 0, 1, uint32(r.Intn(900)), 0x7fffffff, 0xffffffff}))...), []byte(genName(r))...)))})
 					}
 				}
 				w.line(c, fmt.Sprintf("req - %s %s", svc, hx(demonRequest(id, k[0], k[1], pk))))
@@ -304,7 +304,20 @@ func runC01(c *Ctx) {
 				for j := 0; j < nf+2; j++ { // closes and writes for open, closed and unknown ids, in any order
 					f := gen.Pick(r, fids)
 					var p dpkg
-					switch r.Intn(4) {
+					switch r.Intn(6) {
+					case 4: // the agent's view of its transfers: entries for the open ones (any progress / state) and unknown ones
+						var fs []fld
+						fs = append(fs, fI(agent.DEMON_COMMAND_TRANSFER_LIST))
+						for _, g := range fids {
+							if r.Bool() {
+								fs = append(fs, fI(g), fI(gen.Pick(r, []uint32{0, 1, uint32(r.Intn(5000)), 0xffffffff})), fI(uint32(r.Intn(5))))
+							}
+						}
+						fs = append(fs, fI(r.U32()), fI(uint32(r.Intn(100))), fI(1))
+						p = dpkg{cmd: agent.COMMAND_TRANSFER, req: req, body: encFields(fs)}
+						c.Count("downloads.transfer-list")
+					case 5:
+						p = dpkg{cmd: agent.COMMAND_TRANSFER, req: req, body: body(fI(gen.Pick(r, []uint32{agent.DEMON_COMMAND_TRANSFER_STOP, agent.DEMON_COMMAND_TRANSFER_RESUME, agent.DEMON_COMMAND_TRANSFER_REMOVE})), fI(uint32(r.Intn(2))), fI(f))}
 					case 0:
 						p = dpkg{cmd: agent.COMMAND_FS, req: req, body: body(fI(2), fI(1), fI(f), fY(r.Bytes(r.Intn(20))))}
 					case 1:
